@@ -5,15 +5,21 @@ stdout: one JSON line per case (a case runs in a forked child; a child that
         dies yields {"id":..., "crash": signal}).
 
 A case:
-  {"id": int, "bases": [kind, kind], "read_via": "direct"|"symlink"|"relative",
+  {"id": int, "bases": [kind, kind],
+   "read_via": spelling of X, "read_via_y": spelling of Y  (see spell_of: direct, filelink, relative,
+        alias = through a link to the parent directory, dotdot, dslash, scratch = through a link to
+        the scratch directory, alias_scratch, deep = '..' after a link to a deeper directory),
    "ops": [ {op description}, ... ],
-   "write": {"regs":[i,..], "target": "X"|"Y"|"LX"|"Z"|"Xrel", "mode": "w"|"a"|"x",
-             "overwrite": bool, "fault": null|name, "as_list": bool}}
+   "write": {"regs":[i,..], "target": "X"|"Y"|"Z"|"E"|"V"|"DV", "tvia": spelling, "mode": "w"|"a"|"r+"|"x",
+             "overwrite": bool, "fault": null|name, "as_list": bool,
+             "external": null | {"key": "E"|"EN"|"X"|"Y"|"Z", "via": spelling}}}
 
-Names are interned: X=1 (read into register 0), Y=2 (register 1), LX=3
-(symbolic link to X), Z=4 (does not exist), anything else is reported as text.
-A twin environment is built from byte copies of X and Y and goes through the
-same operations; it is never written to and supplies the expected values.
+Layout of a case directory c<ID> (make_layout): data/x.nc (X), data/y.nc (Y), data/e.nc (E, exists),
+data/z.nc data/en.nc data/v.nc (absent), v.nc (V, exists), lx.nc -> data/x.nc, alias -> data,
+alias2 -> data/sub, and beside it s<ID> -> c<ID>.  File names are interned per case (Names): the
+model receives every absolute name with its path components, and the links as canonical paths.
+A twin layout (c<ID>/twin, t<ID>) holds byte copies of X and Y; the twin environment goes through
+the same operations, is never written to and supplies the expected values.
 """
 import gc
 import hashlib
